@@ -355,6 +355,8 @@ class Library:
             return lambda ex_: o
         if attr == "item":
             return lambda ex_: o
+        if attr in ("all", "any"):
+            return lambda ex_: o
         raise Unsupported(f"attribute {attr!r} of scalar")
 
     def arr_attr(self, ex, o, attr, node):
@@ -435,6 +437,8 @@ class Library:
     def seq_slice(self, ex, o, sl, node):
         """slices of symbolic sequences are views (lo', hi') on the same arrays"""
         if sl.step is not None:
+            if sl.step == -1 and sl.start is None and sl.stop is None:
+                return _RevSeq(o)
             raise Unsupported("slice step")
         n = o.length()
 
@@ -608,6 +612,19 @@ class Library:
         from . import libmodels
 
         libmodels.install(self)
+
+
+class _RevSeq:
+    """seq[::-1] of a symbolic sequence (only iterated)"""
+
+    def __init__(self, seq):
+        self.seq = seq
+
+    def length(self):
+        return self.seq.length()
+
+    def at(self, k):
+        return self.seq.at(self.seq.length() - 1 - toz(k))
 
 
 class _Concat:
